@@ -401,6 +401,8 @@ func bmStateLine(idx *comet.BM25SearchIndex, d *bmDict) string {
 		joinOrDash(tfs, ","), joinOrDash(dels, ","), joinOrDash(dts, ";"))
 }
 
+// bmErr: "ok", or the CLASS of the error — informational only (guessed from the message text,
+// which no property constrains); the driver compares success against failure (Proto.lean, sameOutcome).
 func bmErr(err error) string {
 	switch {
 	case err == nil:
